@@ -241,7 +241,7 @@ Fixpoint free_loop (a c : Z) (ring : list page) : list page * Z :=
 
 Definition reset (st : est) : est :=
   match pages st with
-  | [] => st
+  | [] => set_used st 0     (* if (!E->front) { E->used = 0; return; } *)
   | f :: rest =>
     let a0 := if avg st =? 0 then used st else avg st in
     let a1 := a0 * 3 / 4 + used st / 4 in
